@@ -86,6 +86,19 @@ def gen_shaped(rng):
     return items
 
 
+RAGGED = "abcdefgh\nab\nabcdefgh\nxy\n"
+FIXED_EXEC = [
+    ([("move", False, "ia"), ("move", False, "."), ("rep", False, "2", "1"), ("move", False, "u")], "x\n"),
+    ([("move", False, "ia"), ("move", False, "."), ("rep", False, "1", "2"), ("move", False, "u")], "x\n"),
+    ([("move", False, "Ab"), ("move", False, "."), ("move", False, "."), ("rep", False, "2", "1"), ("move", False, "uu")], "x y\n"),
+    ([("move", False, "5l"), ("move", False, "j"), ("rep", False, "1", "1"), ("cut", False, "l")], RAGGED),
+    ([("move", False, "$"), ("move", False, "j"), ("rep", False, "1", "2"), ("cut", False, "l")], RAGGED),
+    ([("move", False, "4l"), ("move", False, "j"), ("move", False, "j"), ("rep", False, "2", "1"), ("cut", False, "h")], RAGGED),
+    ([("move", False, "v"), ("move", False, "l"), ("rep", False, "2", "1"), ("cut", False, "e")], "foo bar baz\n"),
+]
+FIXED_TEXT = {tuple(L.render(it)): t for it, t in FIXED_EXEC}
+
+
 def gen_rematch(rng):
     """a scope that is repeated and whose body changes, without changing the length of the text, which lines its pattern
     selects: every pass has to look at the text as it then is"""
@@ -110,6 +123,9 @@ def run(chk, binary):
     # ---- correspondence: Opts::parse vs model on the Cmd tree ----
     # main() treats a single argument as a vic script: keep to >= 2 arguments (Opts::parse front end)
     items_list = [it for it in ((gen_shaped(rng) if k % 7 == 3 else gen_rematch(rng) if k % 7 == 5 else L.gen_items(rng)) for k in range(n_struct)) if len(L.render(it)) >= 2]
+    # fixed cases: what is done between two commands (closing the undo record, forgetting the column j / k aim for, leaving a
+    # mode) is done inside a repeated group exactly as between the same commands written out
+    items_list = [it for it, _ in FIXED_EXEC] + items_list
     argvs = [L.render(it) for it in items_list]
     mal = [m for m in (malform(rng, rng.choice(argvs)) for _ in range(n_mal)) if len(m) >= 2]
     all_argv = argvs + mal
@@ -149,6 +165,8 @@ def run(chk, binary):
             continue
         text = rng.choice(L.TEXTS)
         pre = rng.choice([[], ["--json"], ["-d", ","], ["--linewise"], ["--json", "--linewise"]])
+        if tuple(a1) in FIXED_TEXT:
+            text, pre = FIXED_TEXT[tuple(a1)], []
         jobs.append({"args": pre + a1, "stdin": text})
         jobs.append({"args": pre + a2, "stdin": text})
         meta.append((pre, a1, a2, text))
